@@ -136,15 +136,51 @@ def compare_graph(ctx, ref, got, tag: str, **facts) -> None:
              view=view, **facts)
 
 
-def run_cycles(ctx, src: str, c0: dict, ref_graph, l4d2: bool, access: list, cycles: int, td: str, **facts) -> None:
+def history_of(desc) -> list:
+    """[{'access': [...], 'fresh': bool, 'same_path': bool}, ...]; old descriptors (access + cycles) = fresh object per cycle."""
+    if 'history' in desc:
+        return desc['history']
+    return [{'access': desc['access'], 'fresh': True, 'same_path': False} for _ in range(desc.get('cycles', 1))]
+
+
+def label_history(ctx, history: list) -> None:
+    ctx.label(f'cycles:{len(history)}')
+    same_look = False
+    for prev, step in zip(history, history[1:]):
+        if step['fresh']:
+            ctx.label('history:fresh_object_per_cycle')
+        else:
+            ctx.label('history:same_object')
+            if prev['access'] and step['access']:
+                same_look = True
+        if step['same_path']:
+            ctx.label('history:same_path')
+    if same_look:
+        ctx.label('history:same_object_look_save_look_save')
+
+
+def run_cycles(ctx, src: str, c0: dict, ref_graph, l4d2: bool, history: list, td: str, **facts) -> None:
+    """The history is played on BSP objects: a step either continues with the object of the previous step (kept alive
+    after its save()) or opens the last written file afresh; it reads the listed views and saves.  After every save the
+    written file is read by fresh objects and compared with the original."""
     from srctools.bsp import BSP
     cur = src
-    for cyc in range(cycles):
-        tag = f'cycle {cyc + 1} access={access}'
-        bsp = BSP(cur)
+    bsp = None
+    out = None
+    touched = False
+    for cyc, step in enumerate(history):
+        access = step['access']
+        touched = touched or bool(access)
+        if bsp is None or step['fresh']:
+            bsp = BSP(cur)
+            how = 'fresh object'
+        else:
+            how = 'same object'
+        tag = f'cycle {cyc + 1}/{len(history)} ({how}) access={access}'
         for v in access:
             getattr(bsp, v)
-        out = os.path.join(td, f'out{cyc}.bsp')
+        if out is None or not step['same_path']:
+            out = os.path.join(td, f'out{cyc}.bsp')
         save_quiet(bsp, out)
         with open(out, 'rb') as f:
             blob = f.read()
@@ -153,7 +189,7 @@ def run_cycles(ctx, src: str, c0: dict, ref_graph, l4d2: bool, access: list, cyc
         except (ValueError, struct.error, IndexError, lzma.LZMAError) as exc:
             ctx.fail('container', f'{tag}: saved file is not a readable BSP container: {exc!r}', **facts)
             return
-        compare_container(ctx, c0, c1, bool(access), tag)
+        compare_container(ctx, c0, c1, touched, tag)
         # saving the result again untouched changes nothing
         again = os.path.join(td, f'again{cyc}.bsp')
         save_quiet(BSP(out), again)
@@ -182,12 +218,12 @@ def label_access(ctx, access: list) -> None:
 
 
 def execute_sample(desc, ctx) -> None:
-    access = desc['access']
-    label_access(ctx, access)
-    ctx.label(f'cycles:{desc.get("cycles", 1)}')
+    history = history_of(desc)
+    label_access(ctx, [v for st_ in history for v in st_['access']])
+    label_history(ctx, history)
     c0, ref = sample_reference()
     with tempfile.TemporaryDirectory(prefix='c10_') as td:
-        run_cycles(ctx, sample_path(), c0, ref, False, access, desc.get('cycles', 1), td, source='sample')
+        run_cycles(ctx, sample_path(), c0, ref, False, history, td, source='sample')
 
 
 def execute_single(desc, ctx) -> None:
@@ -258,8 +294,9 @@ def read_prelude(opts, td: str) -> None:
 def execute_synth(desc, ctx) -> None:
     from srctools.bsp import BSP
     w = G.resolve_world(desc['world'])
-    access = desc['access']
-    label_access(ctx, access)
+    history = history_of(desc)
+    label_access(ctx, [v for st_ in history for v in st_['access']])
+    label_history(ctx, history)
     lumps, game = G.encode_world(w)
     facts = classify_world(ctx, w, lumps, game)
     blob = G.build_bsp(w, (lumps, game))
@@ -285,7 +322,7 @@ def execute_synth(desc, ctx) -> None:
             raise HarnessError(f'generated input is rejected by the reader: {exc!r}\nworld={w!r}') from exc
         if not ok:
             raise HarnessError(f'layout {w["layout"]} not recognised: game_ver={probe.game_ver}')
-        run_cycles(ctx, src, c0, ref, l4d2, access, desc.get('cycles', 1), td, **facts)
+        run_cycles(ctx, src, c0, ref, l4d2, history, td, **facts)
 
 
 # ---- failing_access: one view's lump is undecodable; looking at it (and failing) must not change the file ----------
@@ -374,9 +411,9 @@ def execute_failing(desc, ctx) -> None:
     l4d2 = G.LAYOUTS[w['layout']].l4d2
     # views that neither are the broken one nor pull it in
     safe = [v for v in G.VIEW_ORDER if view not in closure(v)]
-    others = [v for v in desc['access'] if v in safe]
-    order = list(others)
-    order.insert(desc['param'] % (len(order) + 1), view)
+    rounds = [desc['access']] + [r for r in desc.get('more', [])]       # all on ONE object: look -> save -> look -> save
+    if len(rounds) > 1:
+        ctx.label('history:same_object_look_save_look_save')
     with tempfile.TemporaryDirectory(prefix='c10_') as td:
         src = os.path.join(td, 'in.bsp')
         with open(src, 'wb') as f:
@@ -384,53 +421,60 @@ def execute_failing(desc, ctx) -> None:
         c0 = G.read_container(blob, l4d2)
         read_prelude(G.LZMA_DEFAULT, td)
         bsp = BSP(src)
-        raised = None
-        for v in order:
-            if v != view:
-                getattr(bsp, v)
-                continue
+        ga = None
+        for rnd, acc in enumerate(rounds):
+            others = [v for v in acc if v in safe]
+            order = list(others)
+            order.insert((desc['param'] + rnd) % (len(order) + 1), view)
+            raised = None
+            for v in order:
+                if v != view:
+                    getattr(bsp, v)
+                    continue
+                try:
+                    getattr(bsp, v)
+                except (struct.error, ValueError, IndexError, KeyError, TokenSyntaxError, AssertionError) as exc:
+                    raised = type(exc).__name__
+            ctx.label('raised:' + (raised or 'nothing'))
+            ctx.nontrivial(raised is not None)
+            facts = {'kind': kind, 'view': view, 'raised': raised, 'layout': w['layout']}
+            tag = f'round {rnd + 1}/{len(rounds)}: corrupt {where} ({kind}), access={order}, {view} raised {raised}'
+            out = os.path.join(td, f'out{rnd}.bsp')
+            save_quiet(bsp, out)
+            with open(out, 'rb') as f:
+                blob1 = f.read()
             try:
-                getattr(bsp, v)
-            except (struct.error, ValueError, IndexError, KeyError, TokenSyntaxError, AssertionError) as exc:
-                raised = type(exc).__name__
-        ctx.label('raised:' + (raised or 'nothing'))
-        ctx.nontrivial(raised is not None)
-        facts = {'kind': kind, 'view': view, 'raised': raised, 'layout': w['layout']}
-        tag = f'corrupt {where} ({kind}), access={order}, {view} raised {raised}'
-        out = os.path.join(td, 'out.bsp')
-        save_quiet(bsp, out)
-        with open(out, 'rb') as f:
-            blob1 = f.read()
-        try:
-            c1 = G.read_container(blob1, l4d2)
-        except (ValueError, struct.error, IndexError, lzma.LZMAError) as exc:
-            ctx.fail('container', f'{tag}: saved file is not a readable BSP container: {exc!r}', **facts)
-            return
-        if raised is None:
-            return      # the reader coped with the damaged lump: an ordinary access, nothing to demand about its bytes
-        compare_container(ctx, c0, c1, True, tag)
-        if True:
+                c1 = G.read_container(blob1, l4d2)
+            except (ValueError, struct.error, IndexError, lzma.LZMAError) as exc:
+                ctx.fail('container', f'{tag}: saved file is not a readable BSP container: {exc!r}', **facts)
+                return
+            if raised is None:
+                return      # the reader coped with the damaged lump: an ordinary access, nothing to demand about its bytes
+            compare_container(ctx, c0, c1, True, tag)
             # every lump of the view that could not be read is untouched
             for lid in G.VIEWS[view]:
                 if isinstance(lid, int):
-                    a, b = c0['lumps'][lid]['data'], c1['lumps'][lid]['data']
+                    a_, b_ = c0['lumps'][lid]['data'], c1['lumps'][lid]['data']
                     name = G.LUMP_NAMES[lid]
                 else:
-                    a = next(g['data'] for g in c0['game_lumps'] if g['id'] == lid)
-                    b = next(g['data'] for g in c1['game_lumps'] if g['id'] == lid)
+                    a_ = next(g['data'] for g in c0['game_lumps'] if g['id'] == lid)
+                    b_ = next(g['data'] for g in c1['game_lumps'] if g['id'] == lid)
                     name = lid.decode()
-                ctx.check(a == b, 'failed_view_bytes', f'{tag}: lump {name} changed from {len(a)} to {len(b)} bytes '
-                                                       f'although its view could not be read', lump=name, **facts)
-        again = os.path.join(td, 'again.bsp')
-        save_quiet(BSP(out), again)
-        with open(again, 'rb') as f:
-            ctx.check(f.read() == blob1, 'resave_identical', f'{tag}: saving the saved file again changes it', **facts)
-        # parsed content of the unaffected views
-        a_bsp, b_bsp = BSP(src), BSP(out)
-        ga = G.canon([getattr(a_bsp, v) for v in safe])
-        gb = G.canon([getattr(b_bsp, v) for v in safe])
-        if ga != gb:
-            ctx.fail('parsed_content', f'{tag}: unaffected views differ after save: {G.first_diff(ga, gb)}', **facts)
+                ctx.check(a_ == b_, 'failed_view_bytes', f'{tag}: lump {name} changed from {len(a_)} to {len(b_)} bytes '
+                                                         f'although its view could not be read', lump=name, **facts)
+            again = os.path.join(td, 'again.bsp')
+            save_quiet(BSP(out), again)
+            with open(again, 'rb') as f:
+                ctx.check(f.read() == blob1, 'resave_identical', f'{tag}: saving the saved file again changes it', **facts)
+            os.unlink(again)
+            # parsed content of the unaffected views
+            if ga is None:
+                a_bsp = BSP(src)
+                ga = G.canon([getattr(a_bsp, v) for v in safe])
+            b_bsp = BSP(out)
+            gb = G.canon([getattr(b_bsp, v) for v in safe])
+            if ga != gb:
+                ctx.fail('parsed_content', f'{tag}: unaffected views differ after save: {G.first_diff(ga, gb)}', **facts)
 
 
 # ---------------------------------------------------------------------------------------------------------------
@@ -458,11 +502,21 @@ def access_strategy(min_size=1, max_size=6):
     return st.one_of(some, some, some, st.permutations(G.VIEW_ORDER).map(list), st.just([]))
 
 
+def history_strategy(access, max_cycles=3):
+    """1..3 cycles of [read an ordered subset of views -> save]; a later cycle continues with the same (still alive)
+    object or with a fresh one, and writes to a new path or over the previous output."""
+    step = st.fixed_dictionaries({'access': access, 'fresh': st.booleans(), 'same_path': st.booleans()})
+    look = st.fixed_dictionaries({'access': access, 'fresh': st.just(False), 'same_path': st.booleans()})
+    return st.one_of(
+        st.lists(step, min_size=1, max_size=1),
+        st.lists(step, min_size=1, max_size=max_cycles),
+        st.lists(look, min_size=2, max_size=max_cycles),        # look -> save -> look -> save on one object
+    )
+
+
 def strat_subsets(tier):
-    return st.fixed_dictionaries({
-        'access': st.lists(st.sampled_from(G.VIEW_ORDER), min_size=2, max_size=8),
-        'cycles': st.sampled_from([1, 1, 1, 2]),
-    })
+    views = st.lists(st.sampled_from(G.VIEW_ORDER), min_size=1, max_size=6)
+    return st.fixed_dictionaries({'history': history_strategy(views, 2)})
 
 
 PRELUDE = st.one_of(st.just(G.LZMA_DEFAULT), st.sampled_from([[0, 2, 0, 16], [4, 0, 4, 12], [1, 1, 1, 14]]),
@@ -472,8 +526,7 @@ PRELUDE = st.one_of(st.just(G.LZMA_DEFAULT), st.sampled_from([[0, 2, 0, 16], [4,
 def strat_synth(tier):
     return st.fixed_dictionaries({
         'world': G.world_strategy(tier),
-        'access': access_strategy(),
-        'cycles': st.sampled_from([1, 1, 2]),
+        'history': history_strategy(access_strategy()),
         'prelude': PRELUDE,
     })
 
@@ -484,6 +537,7 @@ def strat_failing(tier):
         'kind': st.integers(0, 1000 * len(CORRUPTIONS) - 1).map(lambda k: CORRUPTIONS[k % len(CORRUPTIONS)]),
         'param': st.integers(0, 1000),
         'access': st.lists(st.sampled_from(G.VIEW_ORDER), max_size=4),
+        'more': st.lists(st.lists(st.sampled_from(G.VIEW_ORDER), max_size=4), max_size=2),
     })
 
 
@@ -491,8 +545,7 @@ def strat_container(tier):
     """Poor geometry, rich container: opaque lumps, LZMA, game lumps; mostly nothing accessed."""
     return st.fixed_dictionaries({
         'world': G.world_strategy(tier, rich=False),
-        'access': st.one_of(st.just([]), st.just([]), access_strategy(max_size=2)),
-        'cycles': st.sampled_from([1, 2]),
+        'history': history_strategy(st.one_of(st.just([]), st.just([]), access_strategy(max_size=2)), 2),
         'prelude': PRELUDE,
     })
 
@@ -505,9 +558,10 @@ SUBCHECKS = [
         must_hit=_VIEW_LABELS + ('access:none',)),
     Sub('sample_pairs', execute_sample, enumerate=enum_pairs, quick_shards=8, thorough_shards=16, floor=10),
     Sub('sample_subsets', execute_sample, strategy=strat_subsets, quick=24, thorough=2000, quick_shards=8,
-        thorough_shards=16, floor=10),
+        thorough_shards=16, floor=10, must_hit=('history:same_object_look_save_look_save',)),
     Sub('synth', execute_synth, strategy=strat_synth, quick=1000, thorough=24000, quick_shards=8, thorough_shards=16,
         floor=200, must_hit=_VIEW_LABELS + _LAYOUT_LABELS + (
+            'history:same_object_look_save_look_save', 'history:fresh_object_per_cycle', 'history:same_path',
             'lzma', 'lzma:nondefault', 'prelude:nondefault', 'gl_lzma', 'gl_dummy', 'gl_extra', 'has:faces', 'has:water', 'has:vis', 'has:overlays',
             'has:brushes', 'has:phys', 'dprp:type2', 'dprp:type3', 'access:repeat')),
     Sub('container', execute_synth, strategy=strat_container, quick=400, thorough=8000, quick_shards=4,
@@ -515,7 +569,7 @@ SUBCHECKS = [
     Sub('failing_access', execute_failing, strategy=strat_failing, quick=400, thorough=8000, quick_shards=4,
         thorough_shards=16, floor=100, must_hit=_LAYOUT_LABELS + (
             'corrupt:sprp_version', 'corrupt:trunc:PLANES', 'corrupt:trunc:TEXINFO', 'corrupt:trunc:LEAFS', 'corrupt:tex_offset',
-            'corrupt:ents_unclosed', 'raised:error', 'raised:ValueError')),
+            'corrupt:ents_unclosed', 'raised:error', 'raised:ValueError', 'history:same_object_look_save_look_save')),
 ]
 
 MATCHERS = {}
